@@ -611,15 +611,17 @@ macro_rules! typed_comparision {
                 None => Ok(Value::Boolean(true)),
                 Some(first) => {
                     let mut last_num = first.$expect_type()?;
+                    // every argument is type-checked, also those after a pair that is out of order
+                    let mut in_order = true;
                     for current in iter {
                         let current_num = current.$expect_type()?;
                         #[allow(clippy::neg_cmp_op_on_partial_ord)]
-                        if !(last_num $operator current_num) {
-                            return Ok(Value::Boolean(false));
+                        if in_order && !(last_num $operator current_num) {
+                            in_order = false;
                         }
                         last_num = current_num;
                     }
-                    Ok(Value::Boolean(true))
+                    Ok(Value::Boolean(in_order))
                 }
 
             }
